@@ -8,6 +8,7 @@ from __future__ import annotations
 import json
 
 from vlib import core, jsspenc as je
+from vlib import translate
 from props.c15 import load_corpus
 
 WANT = {"C01"}
@@ -46,6 +47,7 @@ def tally_case(ctx, c, summ):
 
 
 def run(ctx):
+    translate.check_link(ctx, "C01")  # regenerate Gallina from /repo's current source; link lemmas coq/link/C01Link.v
     ctx.rule = ("corpus first; random valid instances (1-3 jobs, 1-3 machines, <=6 operations, durations 1-3, all shapes of C15) x limits with slack 0-3 "
                 "and 1-10 qubits x penalty configurations (defaults; all equal; W = constraint penalties < Pe; strictly ordered; random in regime; "
                 "small dyadic numbers) x share in {0, 1/2, 1, k/8} x ALL 2^n basis states; a few out-of-regime configurations for the correspondence only; "
@@ -66,6 +68,8 @@ def run(ctx):
 
 
 def replay(ctx, payload):
+    if translate.is_link_replay(payload) and not payload.get("failing_input"):
+        return translate.replay(ctx, payload, "C01")  # a replay file written for a broken translation tie
     c = payload.get("case") or payload.get("failing_input")
     batch = je.Batch()
     (je.examine_low_energy if c.get("scan") else je.examine)(ctx, batch, c, WANT, ctx.rng)
